@@ -229,6 +229,80 @@ func (h *c19Hello) encode() []byte {
 	return append(out, b...)
 }
 
+// c19Field is a length field inside an encoded hello: offset, width in bytes, end of the data it covers
+type c19Field struct{ off, size, end int }
+
+// fields locates every length field of the encoding produced by encode()
+func (h *c19Hello) fields() []c19Field {
+	var fs []c19Field
+	sid, comp := c19Hex(h.Sid), c19Hex(h.Comp)
+	p := 4 + 2 + 32
+	fs = append(fs, c19Field{p, 1, p + 1 + len(sid)})
+	p += 1 + len(sid)
+	fs = append(fs, c19Field{p, 2, p + 2 + 2*len(h.Ciphers)})
+	p += 2 + 2*len(h.Ciphers)
+	fs = append(fs, c19Field{p, 1, p + 1 + len(comp)})
+	p += 1 + len(comp)
+	total := len(h.encode())
+	fs = append(fs, c19Field{p, 2, total})
+	p += 2
+	for _, e := range h.Exts {
+		var bl int
+		switch e.K {
+		case "curves":
+			bl = 2 + 2*len(e.Curves)
+		case "points":
+			bl = 1 + len(c19Hex(e.Body))
+		default:
+			bl = len(c19Hex(e.Body))
+		}
+		fs = append(fs, c19Field{p + 2, 2, p + 4 + bl})
+		switch e.K {
+		case "curves":
+			fs = append(fs, c19Field{p + 4, 2, p + 4 + bl})
+		case "points":
+			fs = append(fs, c19Field{p + 4, 1, p + 4 + bl})
+		}
+		p += 4 + bl
+	}
+	return fs
+}
+
+// c19FieldMutate changes one length field by a small delta and/or cuts the message at the
+// end of the data a field covers (+-1): the inputs bounds checks are written for
+func c19FieldMutate(r *Rand, h *c19Hello) []byte {
+	b := h.encode()
+	fs := h.fields()
+	f := fs[r.Intn(len(fs))]
+	if r.Chance(70) {
+		d := []int{-2, -1, 1, 2, 3}[r.Intn(5)]
+		if f.size == 1 {
+			b[f.off] = byte(int(b[f.off]) + d)
+		} else {
+			v := int(b[f.off])<<8 | int(b[f.off+1])
+			v += d
+			b[f.off], b[f.off+1] = byte(v>>8), byte(v)
+		}
+	}
+	if r.Chance(50) {
+		g := fs[r.Intn(len(fs))]
+		cut := g.end + r.Range(-2, 1)
+		if r.Chance(30) {
+			cut = g.off + r.Range(0, g.size)
+		}
+		if cut >= 0 && cut < len(b) {
+			b = b[:cut]
+			if r.Chance(50) && len(b) > fs[3].off+1 { // keep the total extensions length consistent
+				n := len(b) - fs[3].off - 2
+				if n >= 0 {
+					b[fs[3].off], b[fs[3].off+1] = byte(n>>8), byte(n)
+				}
+			}
+		}
+	}
+	return b
+}
+
 // ---------------------------------------------------------------------------------------------
 // helpers: panic capture, fake connection, pusher, loopback FastCGI responder
 // ---------------------------------------------------------------------------------------------
@@ -1403,6 +1477,13 @@ func c19Gen(r *Rand, tier string) []interface{} {
 		}
 		add(&c19In{Kind: "parse", Data: c19H(c19Mutate(r, base))})
 	}
+	for i := 0; i < 900*mult; i++ {
+		h := c19GenHello(r)
+		if r.Chance(40) { // make sure curves/points extensions are present and last
+			h.Exts = append(h.Exts, c19Ext{K: []string{"curves", "points", "other"}[r.Intn(3)], Type: 13, Curves: []uint16{29, 23, 24}, Body: "0001"})
+		}
+		add(&c19In{Kind: "parse", Data: c19H(c19FieldMutate(r, h))})
+	}
 	for i := 0; i < 60*mult; i++ {
 		add(&c19In{Kind: "parse", Data: c19H(c19RandBytes(r, []int{0, 1, 41, 42, 43, 44, 45, 50, 75, 76, 120}[r.Intn(11)]))})
 	}
@@ -1417,6 +1498,41 @@ func c19Gen(r *Rand, tier string) []interface{} {
 			add(&c19In{Kind: "looks", Which: w, Info: inf})
 		}
 		add(&c19In{Kind: "mitm", Info: inf, UA: hx(c19Seeds[si].ua)})
+	}
+	// boundary shapes of the lists the heuristics index into
+	{
+		ffE := []uint16{23, 65281, 10, 11, 35, 16, 5, 13}
+		torE := []uint16{10, 11, 16, 5, 13}
+		safE := []uint16{10, 11, 13, 13172, 16, 5, 18, 23}
+		iosE := []uint16{65281, 0, 23, 13, 5, 13172, 18, 16, 11, 10}
+		ffC := []uint16{0xc02b, 0xc02f, 0xc00a, 0x2f, 0x35, 0xa}
+		safC := []uint16{49196, 49195, 49188, 49187, 49162, 49161, 49200, 49199, 49192, 49191, 49172, 49171, 157, 156, 61, 60, 53, 47}
+		curveSets := [][]uint16{{}, {29}, {23}, {23, 24}, {29, 23}, {23, 24, 25}, {29, 23, 24}, {29, 23, 24, 25}, {30, 23, 24, 25}, {23, 24, 25, 26},
+			{29, 23, 24, 25, 257}, {29, 23, 24, 25, 256, 257}, {29, 23, 24, 25, 256, 258}, {29, 23, 24, 25, 256, 257, 258}, {29, 23, 24, 26, 256}, {23, 24, 25, 29, 30}, {29, 23, 25}}
+		for _, cs := range curveSets {
+			add(&c19In{Kind: "looks", Which: 0, Info: &c19Info{Version: 771, Ciphers: ffC, Exts: ffE, Comp: "00", Curves: cs, Points: "00"}})
+			add(&c19In{Kind: "looks", Which: 4, Info: &c19Info{Version: 771, Ciphers: ffC, Exts: torE, Comp: "00", Curves: cs, Points: "00"}})
+			add(&c19In{Kind: "looks", Which: 1, Info: &c19Info{Version: 771, Ciphers: append([]uint16{0x0a0a}, ffC...), Exts: ffE, Comp: "00", Curves: cs, Points: "00"}})
+		}
+		edgeSets := [][]uint16{{}, {5}, {5, 10}, {5, 10, 11}, {10, 5}, {0, 5, 10}, {0, 5, 10, 11}, {5, 5, 10, 11}, {5, 10, 11, 5}, {5, 10, 11, 5, 10}, {5, 10, 11, 5, 10, 11},
+			{0, 23, 5, 10, 11, 35, 5}, {5, 11, 10}, {10, 11, 5}, {10, 11, 13, 5, 10}}
+		for _, es := range edgeSets {
+			add(&c19In{Kind: "looks", Which: 2, Info: &c19Info{Version: 771, Ciphers: []uint16{0xc02c, 0xc02b}, Exts: es, Comp: "00", Curves: []uint16{29, 23, 24}, Points: "00"}})
+			add(&c19In{Kind: "mitm", UA: hx("Mozilla/5.0 (Windows NT 10.0) Edge/14.14393"), Info: &c19Info{Version: 771, Ciphers: []uint16{0xc02c}, Exts: es, Comp: "00"}})
+		}
+		for _, es := range [][]uint16{safE, iosE, {10, 11, 13}, {}} {
+			for _, cs := range [][]uint16{{}, {255}, safC, append([]uint16{255}, safC...), {0x0a0a}, {255, 0x0a0a}} {
+				add(&c19In{Kind: "looks", Which: 3, Info: &c19Info{Version: 771, Ciphers: cs, Exts: es, Comp: "00", Curves: []uint16{23, 24, 25}, Points: "00"}})
+				add(&c19In{Kind: "mitm", UA: hx("Mozilla/5.0 (Macintosh) Version/10.0.3 Safari/602.4.8"), Info: &c19Info{Version: 771, Ciphers: cs, Exts: es, Comp: "00"}})
+			}
+		}
+		for _, cs := range curveSets { // through the handler: Firefox and Tor user agents
+			if len(cs) == 5 && cs[4] == 256 && cs[3] == 25 && cs[2] == 24 {
+				continue // the known five-curve class is replayed from the corpus
+			}
+			add(&c19In{Kind: "mitm", UA: hx("Mozilla/5.0 (X11; Linux) Gecko/20100101 Firefox/55.0"), Info: &c19Info{Version: 771, Ciphers: ffC, Exts: ffE, Comp: "00", Curves: cs}})
+			add(&c19In{Kind: "mitm", UA: hx("Mozilla/5.0 (Windows NT 6.1; rv:52.0) Gecko/20100101 Firefox/52.0"), Info: &c19Info{Version: 771, Ciphers: ffC, Exts: torE, Comp: "00", Curves: cs}})
+		}
 	}
 	for i := 0; i < 500*mult; i++ {
 		inf := c19MutInfo(r, c19InfoFromSeed(r.Intn(len(c19Seeds))))
